@@ -26,12 +26,13 @@ type Engine struct {
 	loopOrdMemo map[*FuncInfo]map[token.Pos]int
 	loadErrs    []string
 	keyTags     map[string]int
+	typeTags    map[string]int
 }
 
 const modPath = "github.com/bandprotocol/chain/v3"
 
 func NewEngine(repo, verif string) *Engine {
-	return &Engine{repo: repo, verif: verif, pkgs: map[string]*packages.Package{}, funcs: map[string]*FuncInfo{}, cs: NewContractSet(), loopOrdMemo: map[*FuncInfo]map[token.Pos]int{}, keyTags: map[string]int{}}
+	return &Engine{repo: repo, verif: verif, pkgs: map[string]*packages.Package{}, funcs: map[string]*FuncInfo{}, cs: NewContractSet(), loopOrdMemo: map[*FuncInfo]map[token.Pos]int{}, keyTags: map[string]int{}, typeTags: map[string]int{}}
 }
 
 // Load loads the given package directories (relative to the repo root) with full type info.
@@ -150,7 +151,7 @@ func (e *Engine) autoInlinable(fi *FuncInfo) bool {
 		}
 		return ok
 	})
-	return ok && n <= 12
+	return ok && n <= 40
 }
 
 func (e *Engine) loopOrds(fi *FuncInfo) map[token.Pos]int {
@@ -263,7 +264,7 @@ func (e *Engine) VerifyFunc(prop, key string) (rep *FuncReport, obls []*Obligati
 	if c == nil {
 		c = &FuncContract{Key: key, Loops: map[int]*LoopSpec{}, Flags: map[string]string{}, Asserts: map[int][]*Clause{}}
 	}
-	fc := &FCtx{E: e, U: NewUniverse(), FI: fi, C: c, Prop: prop, counters: map[string]int{}, assumed: map[string]bool{}, inlined: map[string]bool{}, specDecl: map[string]bool{}, ctxSuffixOf: map[string]string{}}
+	fc := &FCtx{E: e, U: NewUniverse(), FI: fi, C: c, Prop: prop, counters: map[string]int{}, assumed: map[string]bool{}, inlined: map[string]bool{}, specDecl: map[string]bool{}, ctxSuffixOf: map[string]string{}, cacheParent: map[string]string{}}
 	fc.noOverflow = c.Flags["nooverflow"] != ""
 	fc.mayPanic = c.Flags["may_panic"] != ""
 	fc.fpMode = c.Flags["mode"] == "fp"
@@ -367,6 +368,56 @@ func (fc *FCtx) run() {
 			fr.returns = append(fr.returns, &retState{st: s, vals: vals, ord: len(fc.retOrd)})
 		}
 	}
+	// panic exit of a defer-recover function: arbitrary ghost state, handler decides the results
+	if fc.recoverLit != nil {
+		ps := fc.entry.clone()
+		for _, g := range fc.ghostNames(ps) {
+			gv := ps.ghost[g]
+			ps.ghost[g] = Val{T: fc.U.Fresh("gp_"+g, gv.S), S: gv.S, GoT: gv.GoT}
+		}
+		for _, r := range fr.results {
+			if r.Name() != "" && r.Name() != "_" {
+				s := fc.U.SortOf(r.Type())
+				hv := Val{T: fc.U.Fresh("pr_"+r.Name(), s), S: s, GoT: r.Type()}
+				ps.vars[r] = hv
+				ps.assume(fc.U.WF(hv))
+			}
+		}
+		var lfi *FuncInfo
+		for _, cand := range fc.E.funcs {
+			if cand.Lit == fc.recoverLit {
+				lfi = cand
+			}
+		}
+		if lfi == nil {
+			oos("recover handler literal not indexed")
+		}
+		fc.inRecover = true
+		lfr := &frame{fi: lfi, inlined: true}
+		fc.frames = append(fc.frames, lfr)
+		lflow := fc.execBlock(fc.recoverLit.Body.List, ps)
+		fc.frames = fc.frames[:len(fc.frames)-1]
+		fc.inRecover = false
+		ends := append([]*State{}, lflow.normal...)
+		for _, r := range lfr.returns {
+			ends = append(ends, r.st)
+		}
+		for _, s := range ends {
+			if fc.isDead(s) {
+				continue
+			}
+			var vals []Val
+			for _, r := range fr.results {
+				if v, ok := s.vars[r]; ok {
+					vals = append(vals, v)
+				} else {
+					vals = append(vals, fc.zeroVal(r.Type()))
+				}
+			}
+			fr.returns = append(fr.returns, &retState{st: s, vals: vals, ord: len(fc.retOrd) + 1})
+		}
+		fc.note("defer-recover: a panic anywhere in the body is modelled as an exit with arbitrary ghost state followed by the recover handler")
+	}
 	// postconditions at each exit
 	rn := resultNames(sig, fc.C)
 	for _, r := range fr.returns {
@@ -391,11 +442,32 @@ func (fc *FCtx) run() {
 			name := fmt.Sprintf("post#%d@exit%d", i, r.ord)
 			fc.obligeNamed(r.st, name, "post", t, "ensures "+en.Src, r.pos)
 		}
+		// frame: ghost state not named in `modifies` is unchanged
+		for _, g := range fc.ghostNames(r.st) {
+			if strings.Contains(g, "@") || fc.modifiesGhost(g) {
+				continue
+			}
+			ev, ok := fc.entry.ghost[g]
+			if !ok || ev.T == r.st.ghost[g].T {
+				continue
+			}
+			name := fmt.Sprintf("frame#%s@exit%d", g, r.ord)
+			fc.obligeNamed(r.st, name, "frame", fmt.Sprintf("(= %s %s)", r.st.ghost[g].T, ev.T), "ghost "+g+" is not in modifies and must be unchanged", r.pos)
+		}
 		// canary: the exit is reachable (must not be unsat)
 		can := &Obligation{Name: fmt.Sprintf("%s/%s/canary@exit%d", fc.Prop, shortPkg(fi.Key), r.ord), Kind: "canary", Assumes: append([]string(nil), r.st.pc...), Goal: "true", Cover: true, Canary: true, Clause: "exit reachable (non-vacuity)", Func: fi.Key}
 		fc.Obls = append(fc.Obls, can)
 	}
 	_ = reqs
+}
+
+func (fc *FCtx) modifiesGhost(g string) bool {
+	for _, m := range fc.C.Modifies {
+		if m == g || m == "*" {
+			return true
+		}
+	}
+	return false
 }
 
 func (fc *FCtx) isParam(v *types.Var) bool {
@@ -464,6 +536,14 @@ func (fc *FCtx) observe(path string, v Val, depth int) {
 		for _, f := range v.S.Fields {
 			fv, _ := fieldSel(v, f.Name)
 			fc.observe(path+"."+f.Name, fv, depth+1)
+		}
+	case KOpaque:
+		if isBz(v.S) {
+			fc.paramObs = append(fc.paramObs, ObsVar{Name: path + ".len", Term: "(bz_len " + v.T + ")"})
+			fc.paramObs = append(fc.paramObs, ObsVar{Name: path + ".cap", Term: "(bz_cap " + v.T + ")"})
+			for i := 0; i < 4; i++ {
+				fc.paramObs = append(fc.paramObs, ObsVar{Name: fmt.Sprintf("%s[%d]", path, i), Term: fmt.Sprintf("(bz_at %s %d)", v.T, i)})
+			}
 		}
 	case KSlice:
 		fc.paramObs = append(fc.paramObs, ObsVar{Name: path + ".len", Term: slLen(v)})
